@@ -13,6 +13,7 @@
 #include <ufw/bit-operations.h>
 #include <ufw/endpoints.h>
 #include <ufw/register-table.h>
+#include <ufw/rfc1055.h>
 #include <ufw/toolchain.h>
 
 #ifdef __cplusplus
@@ -120,12 +121,17 @@ typedef struct RPEndpoint {
     RPEndpointType type;
     Source source;
     Sink sink;
+    /* State of the SLIP decoder of a serial channel. It has to outlive a call
+     * of regp_recv(): After an invalid escape sequence the decoder skips to
+     * the end of the damaged frame, which may be a later call's business. */
+    RFC1055Context slip;
 } RPEndpoint;
 
-#define RP_ENDPOINT_NULL        \
-    { .type = RP_EP_TCP,        \
-      .source = source_empty,   \
-      .sink = sink_null         }
+#define RP_ENDPOINT_NULL                        \
+    { .type = RP_EP_TCP,                        \
+      .source = source_empty,                   \
+      .sink = sink_null,                        \
+      .slip = RFC1055_CONTEXT_INIT_DEFAULT      }
 
 typedef struct RegP {
     RPMemory memory;
